@@ -129,6 +129,7 @@ class Exec:
         if not conc(p.off):
             v = self.freshv(name + "_" + p.obj.split("#")[0], 8 * nbytes)
             st.oblig.append(("inbounds", list(st.pc), (p.obj, p.off, nbytes, st.size.get(p.obj))))
+            st.log.append(("symload", p.obj, p.off, nbytes, v))
             return v
         sz = st.size.get(p.obj)
         if sz is not None and not (0 <= p.off and p.off + nbytes <= sz):
